@@ -18,6 +18,9 @@ import (
 	"time"
 )
 
+// Beats counts executions of all explorers of the process (a liveness signal for a watchdog).
+var Beats int64
+
 // Free is the class of uncosted choices.
 const Free = -1
 
@@ -176,6 +179,7 @@ func (e *Explorer) explore(prefix []int32) {
 		return
 	}
 	n := atomic.AddInt64(&e.Execs, 1)
+	atomic.AddInt64(&Beats, 1)
 	if (e.MaxExecs > 0 && n > e.MaxExecs) || (n&1023 == 0 && !e.Deadline.IsZero() && time.Now().After(e.Deadline)) {
 		e.capped.Store(true)
 		return
